@@ -202,6 +202,9 @@ class AccfgGen:
                     node["head_launch"] = r.choice([True, "if"])
             elif p.get("while_loops") and not node["carry"] and r.random() < p["while_loops"]:
                 node["as_while"] = True  # the same counted loop written as scf.while (a region op state tracing does not know)
+            elif p.get("annotated_ifs") and r.random() < p["annotated_ifs"] * 0.5:
+                self.tag += 1
+                node["eff_tag"] = self.tag  # the loop itself carries accfg.effects = full
             for c in node["carry"]:
                 # yield something computed in the body (or the argument itself / an outer value)
                 c[2] = r.choice(inner[-4:] + [c[0]])
@@ -485,6 +488,15 @@ def emit(ast, acc_names=None, vty="i32", decls=()) -> str:
             e(ind + 1, f'{iv}_n = arith.addi {iv}, {s["step"]} : index')
             e(ind + 1, f"scf.yield {iv}_n : index")
             e(ind, "}")
+        elif k == "for" and s.get("eff_tag"):
+            # generic form: the custom syntax of scf.for has no place for attributes
+            cs = s["carry"]
+            e(ind, (", ".join(s["res"]) + " = " if cs else "") + f'"scf.for"({", ".join([s["lb"], s["ub"], s["step"]] + [c[1] for c in cs])}) ({{')
+            e(ind, f'^bb0({", ".join([s["iv"] + " : index"] + [f"{c[0]} : {vty}" for c in cs])}):')
+            e(ind + 1, f'{s["ic"]} = arith.index_cast {s["iv"]} : index to {vty}')
+            stmts(ind + 1, s["body"])
+            e(ind + 1, "scf.yield" + (" " + ", ".join(c[2] for c in cs) + " : " + ", ".join(vty for _ in cs) if cs else ""))
+            e(ind, f'}}) {{"accfg.effects" = #accfg.effects<full>, "vtag" = {s["eff_tag"]} : i64}} : ({", ".join(["index"] * 3 + [vty] * len(cs))}) -> ({", ".join(vty for _ in cs)})')
         elif k == "for":
             head = f'scf.for {s["iv"]} = {s["lb"]} to {s["ub"]} step {s["step"]}'
             if s["carry"]:
@@ -620,7 +632,7 @@ def shrink_body(body):
             # unwrapping is only name-safe when the body does not use iv-derived values; the
             # candidate is simply rejected by the parser otherwise
             yield body[:i] + s["body"] + body[i + 1 :]
-        if k == "if" and s.get("eff_tag"):
+        if k in ("if", "for") and s.get("eff_tag"):
             yield body[:i] + [{kk: vv for kk, vv in s.items() if kk != "eff_tag"}] + body[i + 1 :]
         if k in ("if", "sw"):
             yield body[:i] + s["then"] + body[i + 1 :]
